@@ -66,7 +66,7 @@ OPTION_SETS = [
     [], ["--flow"], ["-t"], ["--keep_prep"], ["--power-stats"], ["--comm_summarize_seq"],
     ["-c", "$COMPLOG"], ["-c", "$COMPLOG", "-t"], ["--flow", "--comm_summarize_seq"], ["-I"],
     ["-M"], ["--disable_tb"], ["-O", "drop"], ["--flow", "-c", "$COMPLOG", "--power-stats"], ["--time_unit", "ms"],
-    ["--drop_globals"], ["-F", "X"], ["-F", "XC"], ["-C"],
+    ["--drop_globals"], ["-F", "X"], ["-F", "XC"], ["-C"], ["--tb"], ["--tb", "--flow"],
 ]
 
 
@@ -182,18 +182,43 @@ def build_scenario(spec):
             a = {"uid": f"x{r}_{uid}"}
             extra.append(({"ph": "B", "ts": t0, "pid": r, "tid": 4242 + (k % 2), "name": f"host_tie_{k}", "args": a},
                           {"ph": "E", "ts": t0 + d, "pid": r, "tid": 4242 + (k % 2), "name": f"host_tie_{k}", "args": a}))
+        if r > 0:
+            # the ranks do not start at the same time: rank r's first slice lies 20*r us before rank 0's
+            uid += 1
+            a = {"uid": f"x{r}_{uid}"}
+            extra.append(({"ph": "B", "ts": he + 60.0 - 20.0 * r, "pid": r, "tid": 4240, "name": "early_start", "args": a},
+                          {"ph": "E", "ts": he + 62.0 - 20.0 * r, "pid": r, "tid": 4240, "name": "early_start", "args": a}))
         pairs = [(evs[i], evs[i + 1]) for i in range(0, len(evs), 2)] + extra
         pairs.sort(key=lambda p: p[0]["ts"])
         files[fn] = [x for p in pairs for x in p]
+        # user counter samples in the input: two samples of ONE track at the same instant, a third one half a
+        # nanosecond later and a slice that starts in between (never placed between a B and its E)
+        tc = he + 150.0
+        cs = [{"ph": "C", "name": "usr_counter", "pid": r, "ts": tc, "args": {"v": 3}},
+              {"ph": "C", "name": "usr_counter", "pid": r, "ts": tc, "args": {"v": 0}},
+              {"ph": "X", "name": "ctr_neighbour", "pid": r, "tid": 4250, "ts": tc + 0.00025, "dur": 0.5, "args": {"uid": f"cn{r}"}},
+              {"ph": "C", "name": "usr_counter", "pid": r, "ts": tc + 0.0005, "args": {"v": 2}}]
+        L = files[fn]
+        k = next((i for i, e in enumerate(L) if e["ts"] > tc and (i == 0 or L[i - 1]["ph"] != "B")), len(L))
+        L[k:k] = cs
     return files
 
 
 def e2e_run(job):
     spec, opts = job
     files = build_scenario(spec)
+    if "--tb" in opts and spec["seed"] % 2 == 0:
+        # device-only rank files (no host slice at all): the tool synthesizes the process metadata itself
+        files = {fn: [e for e in evs if "attr" in e] for fn, evs in files.items()}
     argv = ["--freq", "512"] + [o if o != "$COMPLOG" else str(REPO / "tests/test_data/sample_comp_log_ideal.txt") for o in opts]
-    r = stage.e2e(argv, files)
+    r = stage.e2e(argv, files, want_files=["out.pt.trace.json"] if "--tb" in opts else ())
     evs = r["events"]
+    if "--tb" in opts and r["files"].get("out.pt.trace.json"):
+        # --tb: the exported trace is the combined <output>.pt.trace.json (per-rank worker files beside it)
+        try:
+            evs = json.loads(r["files"]["out.pt.trace.json"])["traceEvents"]
+        except Exception as e:  # noqa: BLE001
+            r["error"] = f"combined TensorBoard trace unreadable: {e}"
     if r["error"] or r["rc"] != 0 or evs is None:
         return {"err": f"rc={r['rc']} error={r['error']}", "viol": None, "n": 0, "ties": 0, "nonX_dur": None}
     ties = sum(1 for a, b in zip(evs, evs[1:]) if a.get("ts") == b.get("ts"))
